@@ -136,7 +136,7 @@ Section Idem.
         destruct (alookup n sdir) as [[c m|es]|]; try reflexivity.
         * unfold copy_file in A1. rewrite Hdry in A1. cbn [fst] in A1. rewrite alookup_aset_same in A1. discriminate.
         * destruct (o_recursive o); [|reflexivity].
-          unfold copy_tree in A1. rewrite Hdry in A1. cbn [fst] in A1.
+          unfold copy_tree, copy_tree_gen in A1. rewrite Hdry in A1. cbn [fst] in A1.
           apply classify_LeftOnly in Ec1. rewrite alookup_app, Ec1 in A1. cbn [alookup] in A1.
           rewrite str_eqb_refl in A1. discriminate.
       + unfold Sync.classify in Ec1. cbn [fst] in A1. rewrite <- A1 in Ec1.
@@ -181,7 +181,7 @@ Section Idem.
         * unfold copy_file in A1. rewrite Hdry in A1. cbn [fst] in A1. rewrite alookup_aset_same in A1.
           rewrite A1 in Hc. destruct (file_same frepr deep c m c NOW); discriminate.
         * destruct (o_recursive o).
-          -- unfold copy_tree in A1. rewrite Hdry in A1. cbn [fst] in A1.
+          -- unfold copy_tree, copy_tree_gen in A1. rewrite Hdry in A1. cbn [fst] in A1.
              rewrite alookup_app, Ec1 in A1. cbn [alookup] in A1. rewrite str_eqb_refl in A1.
              rewrite copied_node in A1. rewrite A1 in Hc. discriminate.
           -- cbn [fst] in A1. rewrite A1, Ec1 in Hc. discriminate.
@@ -214,7 +214,7 @@ Section Idem.
         - (* copied by the first run *)
           unfold step1 in A1. destruct (excluded o n) eqn:Ex.
           + apply classify_LeftOnly in Ec1. cbn [fst] in A1. congruence.
-          + rewrite E1, Er in A1. unfold copy_tree in A1. rewrite Hdry in A1. cbn [fst] in A1.
+          + rewrite E1, Er in A1. unfold copy_tree, copy_tree_gen in A1. rewrite Hdry in A1. cbn [fst] in A1.
             apply classify_LeftOnly in Ec1. rewrite alookup_app, Ec1 in A1. cbn [alookup] in A1.
             rewrite str_eqb_refl in A1. rewrite copied_node in A1. inversion A1; subst des'.
             change (tree_excl cf o) with (tree_excl cf (set_top o false)).
